@@ -225,6 +225,62 @@ pub fn scenario(acc: &mut Acc, seed: u64, index: u64, tier: Tier) {
                 Injected::None => acc.count("crash_point_not_reached", 1),
                 Injected::Guard(g) => acc.count(&format!("guard:{}", g), 1),
                 Injected::Stop => acc.count("runs_stopped_by_finding", 1),
+                Injected::CompileCrash => {}
+            }
+            report(acc, CLASSES, PROPERTY, "crash-sim", src, &plan, &r, seed, index);
+        }
+    }
+
+    // compile-time abort points: the compilation is cut short at its k-th step (statement or
+    // expression, any depth) for every k - the exit path a compile-time error takes. Nothing was run;
+    // every literal the compiler had made by then must have been released.
+    {
+        let c = r0.compile_steps;
+        let cks: Vec<u64> = if c <= 600 || tier == Tier::Thorough {
+            (0..c).collect()
+        } else {
+            acc.count("programs_sampled_compile_crash_points", 1);
+            let mut v: Vec<u64> = (0..100).chain(c - 100..c).collect();
+            for _ in 0..200 {
+                v.push(100 + rng.below(c - 200));
+            }
+            v.sort();
+            v.dedup();
+            v
+        };
+        for &k in &cks {
+            let mut plan = fault_plan(None, CollectPlan::Shipped, budget);
+            plan.compile_crash_at = Some(k);
+            acc.begin(&spec::eval_spec("crash-sim", src, &plan));
+            let r = runner::run_eval(src, &plan, 1, true);
+            acc.count("runs", 1);
+            lf.u64(r.log_hash);
+            if r.injected == Injected::CompileCrash {
+                acc.count("fault_compile_crash_fired", 1);
+                if r.stats.allocs > 0 {
+                    acc.count("probe_compile_crash_with_literals_allocated", 1);
+                    let mut g = Fold::new();
+                    g.str(src);
+                    g.u64(k);
+                    g.u64(0xC0);
+                    acc.distinct("nontrivial_cases", g.0);
+                }
+                let ok = r.steps == 0 && matches!(&r.outcome, runner::Outcome::Err(k, m) if k == "TypeError" && m == nederlang::verif::INJECTED_FAILURE);
+                if !ok {
+                    let mut sp = spec::eval_spec("crash-sim", src, &plan);
+                    sp["expect"] = json!({"class": "crash-path-differs", "key": format!("compile:{}", r.outcome.kind())});
+                    acc.violation(Violation {
+                        property: PROPERTY.into(),
+                        class: "crash-path-differs".into(),
+                        key: format!("compile:{}", r.outcome.kind()),
+                        detail: format!("compilation cut short at step {} did not end with the injected error before anything ran, but with: {} ({} instructions executed)", k, r.outcome.render(), r.steps),
+                        spec: sp,
+                        seed,
+                        index,
+                    });
+                }
+            } else {
+                acc.count("compile_crash_point_not_reached", 1);
             }
             report(acc, CLASSES, PROPERTY, "crash-sim", src, &plan, &r, seed, index);
         }
